@@ -14,16 +14,73 @@ inductive CmpAtom where
   | equalField (f : Fld)   -- Equal(Cast<T>(expr_).f(), e.f())
   deriving DecidableEq, Repr
 
-/-- handlers with loops: not translated statement by statement, tied by their syntax tree -/
-inductive OpaqueTag where
-  | plTerm | call | varArg | stringLiteral
+/-- indexed double accessors of a PL term -/
+inductive DFld where
+  | slope | breakpoint
   deriving DecidableEq, Repr
+
+/-- integer expressions of the loop-carrying handlers -/
+inductive IExp where
+  | idx             -- the loop variable (`i`; for iterator loops the number of `++` done so far)
+  | selfN           -- `num_breakpoints()` / `num_args()` / `end() - begin()` of the left operand (hasher: of `e`)
+  | lit (n : Nat)
+  deriving DecidableEq, Repr
+
+/-- conditions of the loop-carrying comparator handlers (`self` = `Cast<T>(expr_)`, `other` = `e`) -/
+inductive BExp where
+  | tru
+  | neCount                          -- self.n() != other.n()
+  | neFunc                           -- self.function() != other.function()
+  | neD (f : DFld) (ix : IExp)       -- self.f(ix) != other.f(ix)      (double)
+  | eqD (f : DFld) (ix : IExp)       -- self.f(ix) == other.f(ix)
+  | otherExhausted (ix : IExp)       -- j == jend, j = other.begin() advanced ix times
+  | otherCountIs (ix : IExp)         -- j == jend after the loop: other has exactly ix arguments
+  | neKindArg (ix : IExp)            -- self.arg(ix).kind() != other.arg(ix).kind()
+  | equalArg (ix : IExp)             -- Equal(self.arg(ix), other.arg(ix))
+  | strcmpNeArg (ix : IExp)          -- strcmp(Cast<StringLiteral>(self.arg(ix)).value(), …other…) != 0
+  | equalChild (f : Fld)             -- Equal(self.f(), other.f())
+  | or (a b : BExp)
+  | and (a b : BExp)
+  | not (a : BExp)
+  deriving Repr
+
+inductive Guard where
+  | isNumericArg (ix : IExp)         -- Cast<NumericExpr>(self.arg(ix)) is non-null
+  | isStringArg (ix : IExp)          -- Cast<StringLiteral>(self.arg(ix)) is non-null
+  deriving Repr
+
+/-- statements of the loop-carrying comparator handlers; every early exit is `return false` -/
+inductive CStmt where
+  | failIf (c : BExp)                              -- if (c) return false;
+  | ite (g : Guard) (t e : List CStmt)             -- if (T x = Cast<T>(arg)) {t} else {e}
+  | forRange (n : IExp) (body : List CStmt)        -- for (int i = 0; i < n; ++i) {body}
+  | ret (c : BExp)                                 -- return c;
+  deriving Repr
 
 inductive CmpBody where
   | conj (atoms : List CmpAtom)   -- return a1 && a2 && …
-  | opaque (t : OpaqueTag)
+  | prog (p : List CStmt)         -- handlers with a loop
   | unsupported                   -- the forwarding chain ends in BasicExprVisitor::VisitUnsupported
-  deriving DecidableEq, Repr
+  deriving Repr
+
+/-- values combined into the hash by the loop-carrying hasher handlers -/
+inductive HVal where
+  | dAt (f : DFld) (ix : IExp)    -- e.f(ix)                (std::hash<double>)
+  | argAt (ix : IExp)             -- e.arg(ix) / *i         (std::hash<mp::Expr>)
+  | childArg                      -- e.arg() of a PL term   (std::hash<mp::Expr>)
+  | funcName                      -- e.function().name()    (std::hash<const char*>)
+  | charAt (ix : IExp)            -- s.value()[ix]          (std::hash<char>)
+  deriving Repr
+
+inductive HCount where
+  | selfN        -- num_breakpoints() / num_args() / end() - begin()
+  | strlen       -- characters before the terminating NUL
+  deriving Repr
+
+inductive HStmt where
+  | combine (v : HVal)                             -- hash = HashCombine(hash, v);
+  | forRange (n : HCount) (body : List HStmt)
+  deriving Repr
 
 /-- which `HashCombine` overload a hashed field goes through -/
 inductive Prim where
@@ -32,9 +89,9 @@ inductive Prim where
 
 inductive HashBody where
   | chain (fs : List (Fld × Prim))   -- Hash(e) combined, left to right, with e.f1(), e.f2(), …
-  | opaque (t : OpaqueTag)
+  | prog (p : List HStmt)            -- hash = Hash(e); p; return hash;
   | unsupported
-  deriving DecidableEq, Repr
+  deriving Repr
 
 inductive Entry where
   | kindTestThenVisit   -- if (e1.kind() != e2.kind()) return false; return Visitor(e1).Visit(e2);
